@@ -1030,6 +1030,49 @@ cmd_res(void) {
 }
 
 static void
+cmd_resmod(void) {
+  /* resmod <n> <pathhex> [obs=0|1] [attr=namehex:valhex]   change a registered resource */
+  node_t *nd = &nodes[atoi(tok[1])];
+  size_t plen;
+  uint8_t *p = vf_unhex(tok[2], strlen(tok[2]), &plen);
+  coap_str_const_t name = {plen, p};
+  coap_resource_t *r = coap_get_resource_from_uri_path(nd->ctx, &name);
+  const char *v;
+  int ok = r != NULL;
+  if (r && (v = kv("obs", NULL)))
+    coap_resource_set_get_observable(r, atoi(v));
+  if (r && (v = kv("attr", NULL))) {
+    char *dup = strdup(v), *c = strchr(dup, ':');
+    size_t nl, vl = 0;
+    uint8_t *nb, *vb = NULL;
+    coap_str_const_t *an, *av = NULL;
+    if (c)
+      *c = 0;
+    nb = vf_unhex(dup, strlen(dup), &nl);
+    if (c)
+      vb = vf_unhex(c + 1, strlen(c + 1), &vl);
+    an = coap_new_str_const(nb, nl);
+    if (c)
+      av = coap_new_str_const(vb, vl);
+    if (!an || (c && !av) ||
+        !coap_add_attr(r, an, av, COAP_ATTR_FLAGS_RELEASE_NAME | COAP_ATTR_FLAGS_RELEASE_VALUE)) {
+      if (an)
+        coap_delete_str_const(an);
+      if (av)
+        coap_delete_str_const(av);
+      ok = 0;
+    }
+    free(nb);
+    free(vb);
+    free(dup);
+  }
+  free(p);
+  ev_begin("resmod");
+  ev_int("ok", ok);
+  ev_end();
+}
+
+static void
 cmd_delres(void) {
   node_t *nd = &nodes[atoi(tok[1])];
   size_t plen;
@@ -1825,7 +1868,7 @@ free_node(int n) {
 static void
 run_command(void) {
   const char *c = tok[0];
-  static const char *noded[] = {"node", "ctx", "ep", "res", "delres", "sess", "send", "notify",
+  static const char *noded[] = {"node", "ctx", "ep", "res", "resmod", "delres", "sess", "send", "notify",
                                 "prepare", "io", "peek", "peekobs", "psk", "persist", "persist_stop", "urihelpers", "oscore_server", "peekosc", "verdict", "cancelobs", "release",
                                 "disconnect", "appref", "apprelease", "freenode", NULL};
   int i;
@@ -1848,6 +1891,8 @@ run_command(void) {
     cmd_ep();
   else if (!strcmp(c, "res"))
     cmd_res();
+  else if (!strcmp(c, "resmod"))
+    cmd_resmod();
   else if (!strcmp(c, "delres"))
     cmd_delres();
   else if (!strcmp(c, "sess"))
